@@ -5,6 +5,8 @@ import AfkakProofs.Consumer.Inv4
 namespace Afkak.Proofs.Consumer
 open Afkak.Consumer Afkak.Monitor Afkak.Consts
 
+variable [EnvHyp]
+
 /-- Between events: the invariant holds and the processor is not executing. -/
 def Top (cfg : Cfg) (s : St) : Prop :=
   G cfg s ∧ s.frame = none ∧ (runR C03.ackStep {} s.out).lc = s.lastCommitted
@@ -21,6 +23,12 @@ theorem req_of_guard {s : St} {k : Nat} {kind : ReqKind}
   rcases h with h | h
   · exact ⟨false, h⟩
   · exact ⟨true, h⟩
+
+/-- what the increasing-delivery statement assumes of an event (see `EnvHyp`) -/
+def EvOk : Ev → Prop
+  | .fetchOk _ r => ReplyOk r
+  | .env rq _ => ∀ k t, rq = some (k, t) → k ≠ .outOfRange
+  | _ => True
 
 section
 variable (cfg : Cfg)
@@ -47,9 +55,10 @@ theorem ev_commit {s : St} (hs : Top cfg s) :
   have hlc := hs.2.2
   exact (commitUser_pres cfg).step (by leaf hx)
 
-theorem ev_fetchOk (k : Nat) (r : Reply) {s : St} (hs : Top cfg s) (c : Bool) (hreq : s.requestD = .pending k .fetch c) :
+theorem ev_fetchOk (k : Nat) (r : Reply) {s : St} (hs : Top cfg s) (c : Bool) (hreq : s.requestD = .pending k .fetch c)
+    (hr : EnvHyp.sane → ReplyOk r) :
     Good cfg s (handleFetchResponse cfg (opsN cfg cfg.depth) k r { s with out := .ev (.fetchOk k r) :: s.out }) :=
-  handleFetchResponse_good (opsN_pres cfg _) (opsN_calm cfg _) k r c hs.1 hs.2.1 hs.2.2 hreq
+  handleFetchResponse_good (opsN_pres cfg _) (opsN_calm cfg _) k r c hs.1 hs.2.1 hs.2.2 hreq hr
 
 theorem ev_fetchErr (k : Nat) (ek : ErrKind) (tag : Nat) {s : St} (hs : Top cfg s) (c : Bool)
     (hreq : s.requestD = .pending k .fetch c) :
@@ -57,8 +66,12 @@ theorem ev_fetchErr (k : Nat) (ek : ErrKind) (tag : Nat) {s : St} (hs : Top cfg 
   have hx := Good.refl hs.1
   have hlc := hs.2.2
   have ha := sf_active hs.1 k .fetch c hreq
+  have hst := incStep_fetchErr cfg.reset.isSome (runR (C02.incStep cfg.reset.isSome) {} s.out) k ek tag
   unfold handleFetchError
-  exact (fetchErrorTail_pres cfg _).step (by leaf hx)
+  refine fetchErrorTail_good cfg _ (by leaf hx) (fun hP ho hr => ?_)
+  have hek : ek = .outOfRange := by cases ek <;> simp [Fail.isOutOfRange] at ho ⊢
+  subst hek
+  simp [Armed, C02.incStep, hr]
 
 theorem ev_offsetOk (k : Nat) (off : Int) {s : St} (hs : Top cfg s) (c : Bool) (hreq : s.requestD = .pending k .offsets c) :
     Good cfg s (handleOffsetResponse cfg false off { s with out := .ev (.offsetOk k off) :: s.out }) := by
@@ -66,7 +79,9 @@ theorem ev_offsetOk (k : Nat) (off : Int) {s : St} (hs : Top cfg s) (c : Bool) (
   have hlc := hs.2.2
   have ha := sf_active hs.1 k .offsets c hreq
   unfold handleOffsetResponse
-  exact (offsetResponseTail_pres cfg _).step (by leaf hx)
+  refine offsetResponseTail_good cfg _ (by leaf hx) (fun hP => ?_)
+  have := (hs.1.inc hP).armO k c hreq
+  simpa [Armed, C02.incStep] using this
 
 theorem ev_offsetErr (k : Nat) (ek : ErrKind) (tag : Nat) {s : St} (hs : Top cfg s) (c : Bool)
     (hreq : s.requestD = .pending k .offsets c) :
@@ -77,11 +92,62 @@ theorem ev_offsetErr (k : Nat) (ek : ErrKind) (tag : Nat) {s : St} (hs : Top cfg
   unfold handleOffsetError
   exact (offsetErrorTail_pres cfg _).step (by leaf hx)
 
-theorem ev_offsetFetchOk (k : Nat) (off : Int) {s : St} (hs : Top cfg s) (c : Bool) (hreq : s.requestD = .pending k .offsetFetch c) :
-    Good cfg s (handleOffsetResponse cfg true off { s with out := .ev (.offsetFetchOk k off) :: s.out }) := by
+section OffsetFetchOk
+variable (k : Nat) (off : Int) {s : St} (hs : Top cfg s) (c : Bool) (hreq : s.requestD = .pending k .offsetFetch c)
+include hs hreq
+
+theorem ev_offsetFetchOk_stopped (hstop : s.startD = .none) :
+    Good cfg s { ({ s with out := .ev (.offsetFetchOk k off) :: s.out } : St) with requestD := .none } := by
   have hx := Good.refl hs.1
   have ha := sf_active hs.1 k .offsetFetch c hreq
   have hlc := hs.2.2
+  leaf hx
+
+theorem ev_offsetFetchOk_none (hrun : s.startD ≠ .none) :
+    Good cfg s { ({ s with out := .ev (.offsetFetchOk k (-1)) :: s.out } : St) with requestD := .none, retryDelay := cfg.retryInit, attempts := 1, fetchOffset := if cfg.reset == some offsetLatest then offsetLatest else offsetEarliest } := by
+  have hx := Good.refl hs.1
+  have ha := sf_active hs.1 k .offsetFetch c hreq
+  have hlc := hs.2.2
+  have c1 : offsetNotCommitted = -1 := rfl
+  leaf hx
+
+theorem ev_offsetFetchOk_neg (hrun : s.startD ≠ .none) (hoff : off ≠ -1) (h0 : ¬ 0 ≤ off) :
+    Good cfg s { ({ s with out := .ev (.offsetFetchOk k off) :: s.out } : St) with requestD := .none, retryDelay := cfg.retryInit, attempts := 1, fetchOffset := off + 1, lastCommitted := some off } := by
+  have hx := Good.refl hs.1
+  have ha := sf_active hs.1 k .offsetFetch c hreq
+  have hlc := hs.2.2
+  have c1 : offsetNotCommitted = -1 := rfl
+  leaf hx
+
+theorem ev_offsetFetchOk_num1 (hrun : s.startD ≠ .none) (hoff : off ≠ -1) (h0 : 0 ≤ off) (due : Rat) (hd : s.retryCall = .pending due) :
+    Good cfg s { s with out := .ob (.fetch s.nextReq (off + 1) s.bufferSize) :: .ob (.cancelTimer .retry) :: .ev (.offsetFetchOk k off) :: s.out, retryCall := .none, requestD := .pending s.nextReq .fetch false, nextReq := s.nextReq + 1, retryDelay := cfg.retryInit, attempts := 1, fetchOffset := off + 1, lastCommitted := some off } := by
+  have hx := Good.refl hs.1
+  have ha := sf_active hs.1 k .offsetFetch c hreq
+  have hlc := hs.2.2
+  have c1 : offsetNotCommitted = -1 := rfl
+  have c2 : offsetEarliest = -2 := rfl
+  have c3 : offsetLatest = -1 := rfl
+  have c4 : offsetCommitted = -101 := rfl
+  leaf hx
+
+theorem ev_offsetFetchOk_num2 (hrun : s.startD ≠ .none) (hoff : off ≠ -1) (h0 : 0 ≤ off) (hd : ∀ due, s.retryCall ≠ .pending due) :
+    Good cfg s { s with out := .ob (.fetch s.nextReq (off + 1) s.bufferSize) :: .ev (.offsetFetchOk k off) :: s.out, retryCall := .none, requestD := .pending s.nextReq .fetch false, nextReq := s.nextReq + 1, retryDelay := cfg.retryInit, attempts := 1, fetchOffset := off + 1, lastCommitted := some off } := by
+  have hx := Good.refl hs.1
+  have hrp : retryPending s.retryCall = false := by
+    cases hq : s.retryCall with
+    | pending due => exact absurd hq (hd due)
+    | none => rfl
+    | dead => rfl
+  have ha := sf_active hs.1 k .offsetFetch c hreq
+  have hlc := hs.2.2
+  have c1 : offsetNotCommitted = -1 := rfl
+  have c2 : offsetEarliest = -2 := rfl
+  have c3 : offsetLatest = -1 := rfl
+  have c4 : offsetCommitted = -101 := rfl
+  leaf hx
+
+theorem ev_offsetFetchOk :
+    Good cfg s (handleOffsetResponse cfg true off { s with out := .ev (.offsetFetchOk k off) :: s.out }) := by
   have c1 : offsetNotCommitted = -1 := rfl
   have c2 : offsetEarliest = -2 := rfl
   have c3 : offsetLatest = -1 := rfl
@@ -90,7 +156,8 @@ theorem ev_offsetFetchOk (k : Nat) (off : Int) {s : St} (hs : Top cfg s) (c : Bo
   simp only []
   split
   · -- stopped: a late reply
-    leaf hx
+    rename_i hrun
+    exact ev_offsetFetchOk_stopped cfg k off hs c hreq (by simpa using hrun)
   · rename_i hrun
     have hrun' : s.startD ≠ .none := by simpa using hrun
     simp only [Bool.not_true, Bool.false_eq_true, if_false]
@@ -99,7 +166,7 @@ theorem ev_offsetFetchOk (k : Nat) (off : Int) {s : St} (hs : Top cfg s) (c : Bo
       rename_i hnc
       have hoff : off = -1 := by simpa [c1] using hnc
       subst hoff
-      exact doFetch_good cfg (by leaf hx) hrun'
+      exact doFetch_good cfg (ev_offsetFetchOk_none cfg k hs c hreq hrun') hrun'
     · -- resume after the committed offset
       rename_i hnc
       have hoff : off ≠ -1 := by simpa [c1] using hnc
@@ -107,10 +174,14 @@ theorem ev_offsetFetchOk (k : Nat) (off : Int) {s : St} (hs : Top cfg s) (c : Bo
       · rw [doFetch_numeric cfg _ rfl (by simp only [c2]; omega) (by simp only [c3]; omega) (by simp only [c4]; omega)]
         simp only []
         split
-        · leaf hx
-        · leaf hx
+        · rename_i due hd
+          exact ev_offsetFetchOk_num1 cfg k off hs c hreq hrun' hoff h0 due hd
+        · rename_i hd
+          exact ev_offsetFetchOk_num2 cfg k off hs c hreq hrun' hoff h0 (fun due hdd => hd due hdd)
       · -- a negative "committed offset" other than -1 (no broker sends one): nothing is expected of the next fetch
-        exact doFetch_good cfg (by leaf hx) hrun'
+        exact doFetch_good cfg (ev_offsetFetchOk_neg cfg k off hs c hreq hrun' hoff h0) hrun'
+
+end OffsetFetchOk
 
 theorem ev_offsetFetchErr (k : Nat) (ek : ErrKind) (tag : Nat) {s : St} (hs : Top cfg s) (c : Bool)
     (hreq : s.requestD = .pending k .offsetFetch c) :
@@ -170,7 +241,7 @@ theorem ev_tick {s : St} (hs : Top cfg s) (l : Looper) :
 
 end
 
-theorem stepCore_good (cfg : Cfg) (e : Ev) {s s' : St} (hs : Top cfg s)
+theorem stepCore_good (cfg : Cfg) (e : Ev) {s s' : St} (hs : Top cfg s) (he : EnvHyp.sane → EvOk e)
     (h : stepCore cfg { s with out := .ev e :: s.out } e = some s') : Good cfg s s' := by
   have hx := Good.refl hs.1
   have hlc := hs.2.2
@@ -185,7 +256,7 @@ theorem stepCore_good (cfg : Cfg) (e : Ev) {s s' : St} (hs : Top cfg s)
     · rename_i hq
       obtain ⟨c, hreq⟩ := req_of_guard hq
       simp only [Option.some.injEq] at h; subst h
-      exact ev_fetchOk cfg k r hs c hreq
+      exact ev_fetchOk cfg k r hs c hreq he
     · cases h
   | fetchErr k ek tag =>
     simp only [stepCore] at h
@@ -303,6 +374,7 @@ theorem stepCore_good (cfg : Cfg) (e : Ev) {s s' : St} (hs : Top cfg s)
       leaf hx
   | env rq cm =>
     simp only [stepCore, Option.some.injEq] at h; subst h
+    simp only [EvOk] at he
     leaf hx
 
 theorem probe_top (cfg : Cfg) {s0 s : St} (h : Good cfg s0 s) : Good cfg s0 (probe s) ∧
@@ -323,7 +395,7 @@ theorem probe_top (cfg : Cfg) {s0 s : St} (h : Good cfg s0 s) : Good cfg s0 (pro
 def Top' (cfg : Cfg) (s : St) : Prop :=
   G cfg s ∧ s.frame = none ∧ (s.crashed = true ∨ (runR C03.ackStep {} s.out).lc = s.lastCommitted)
 
-theorem step_top (cfg : Cfg) (e : Ev) {s : St} (hs : Top' cfg s) : Top' cfg (step cfg s e) := by
+theorem step_top (cfg : Cfg) (e : Ev) {s : St} (hs : Top' cfg s) (he : EnvHyp.sane → EvOk e) : Top' cfg (step cfg s e) := by
   have hx := Good.refl hs.1
   unfold step
   split
@@ -338,7 +410,7 @@ theorem step_top (cfg : Cfg) (e : Ev) {s : St} (hs : Top' cfg s) : Top' cfg (ste
     split
     · exact ⟨(show Good cfg s _ by leaf hx).1, hs.2.1, Or.inr (by simpa [C03.ackStep] using hlc)⟩
     · rename_i s' h
-      have h1 := stepCore_good cfg e hs' h
+      have h1 := stepCore_good cfg e hs' he h
       split
       · rename_i hc2
         exact ⟨h1.1, h1.2.trans hs.2.1, Or.inl hc2⟩
@@ -346,20 +418,25 @@ theorem step_top (cfg : Cfg) (e : Ev) {s : St} (hs : Top' cfg s) : Top' cfg (ste
         exact ⟨h2.1, h2.2.trans hs.2.1, Or.inr h3⟩
 
 theorem init_top (cfg : Cfg) (script : List PEntry) : Top' cfg (init cfg script) := by
-  refine ⟨⟨?_, ?_, ?_, ?_, ?_⟩, rfl, Or.inr rfl⟩
+  refine ⟨⟨?_, ?_, ?_, ?_, ?_, ?_, fun _ => ?_⟩, rfl, Or.inr rfl⟩
   · constructor <;> simp [init, oifOf]
   · constructor <;> simp [init, activeReq, retryPending]
   · constructor <;> simp [init]
   · constructor <;> simp [init]
   · constructor <;> simp [init]
+  · constructor <;> simp [init]
+  · constructor <;> simp [init, offsetEarliest, offsetLatest, offsetCommitted]
 
-theorem run_top (cfg : Cfg) (script : List PEntry) (evs : List Ev) : Top' cfg (run cfg script evs) := by
+theorem run_top (cfg : Cfg) (script : List PEntry) (evs : List Ev) (he : EnvHyp.sane → ∀ e ∈ evs, EvOk e) :
+    Top' cfg (run cfg script evs) := by
   unfold run
-  have : ∀ (evs : List Ev) (s : St), Top' cfg s → Top' cfg (evs.foldl (step cfg) s) := by
+  have : ∀ (evs : List Ev) (s : St), (EnvHyp.sane → ∀ e ∈ evs, EvOk e) → Top' cfg s → Top' cfg (evs.foldl (step cfg) s) := by
     intro evs
     induction evs with
-    | nil => intro s h; exact h
-    | cons e es ih => intro s h; exact ih _ (step_top cfg e h)
-  exact this evs _ (init_top cfg script)
+    | nil => intro s _ h; exact h
+    | cons e es ih =>
+      intro s he h
+      exact ih _ (fun hP x hx => he hP x (List.mem_cons_of_mem _ hx)) (step_top cfg e h (fun hP => he hP e List.mem_cons_self))
+  exact this evs _ he (init_top cfg script)
 
 end Afkak.Proofs.Consumer
